@@ -26,9 +26,18 @@ def main():
     r = re.search(r"-run\s+(\S+)", head)
     runname = r.group(1) if r else "."
     meta = {"id": mid, "breaks_property": mid.split("-")[0], "checked_against": props, "demo_package": pkg, "demo_run": runname}
+    src_patch = f"{src}/patch.diff"
     rc, out = sh(f"git apply {src}/patch.diff", cwd=WT)
     if rc != 0:
-        print(mid, "PATCH-DOES-NOT-APPLY", out[-300:]); return 1
+        # the change was written against an earlier commit of /repo (before a later fix: commit): fall back to a 3-way merge
+        rc, out = sh(f"git apply --3way {src}/patch.diff && git reset -q", cwd=WT)
+        if rc != 0:
+            print(mid, "PATCH-DOES-NOT-APPLY", out[-300:]); return 1
+        sh(f"git diff > {src}/patch.rebased.diff", cwd=WT)
+        src_patch = f"{src}/patch.rebased.diff"
+        sh(f"git checkout -- .", cwd=WT)
+        sh(f"git apply {src_patch}", cwd=WT)
+        meta["rebased_onto"] = sh("git -C /repo rev-parse --short HEAD")[1].strip()
     rc, out = sh("go build ./... 2>&1 | grep -v pcsc | grep -v '^#' | grep -v PKG_CONFIG | grep -v 'Perhaps\\|Package' | head", cwd=WT)
     rc, out = sh("go test -vet=off -count=1 ./... 2>&1 | grep -v '^ok\\|no test files\\|pcsc\\|PKG_CONFIG\\|Perhaps\\|Package\\|^#' | head -20", cwd=WT)
     bad = [l for l in out.splitlines() if l.strip() and "gmrtd-reader" not in l and l.strip() != "FAIL"]
@@ -39,7 +48,7 @@ def main():
     shutil.copy(f"{src}/demo_test.go", demo_path)
     rc1, out1 = sh(f"go test -vet=off -count=1 -run '{runname}' ./{pkg}/ 2>&1 | tail -15", cwd=WT)
     fails_with = "FAIL" in out1 and "build failed" not in out1
-    sh(f"git apply -R {src}/patch.diff", cwd=WT)
+    sh(f"git apply -R {src_patch}", cwd=WT)
     rc2, out2 = sh(f"go test -vet=off -count=1 -run '{runname}' ./{pkg}/ 2>&1 | tail -5", cwd=WT)
     passes_without = ("ok " in out2 or "ok\t" in out2) and "FAIL" not in out2
     meta["demo_fails_with_change"], meta["demo_passes_without_change"] = fails_with, passes_without
@@ -47,7 +56,7 @@ def main():
     if not (fails_with and passes_without):
         print(mid, "DEMO-NOT-CONFIRMED", "with:", out1[-300:].replace("\n", " | "), "without:", out2[-200:].replace("\n", " | "))
         return 1
-    sh(f"git apply {src}/patch.diff", cwd=WT)
+    sh(f"git apply {src_patch}", cwd=WT)
     results = {}
     for p in props:
         t0 = time.time()
@@ -60,7 +69,8 @@ def main():
     sh("git checkout -- . && git clean -fdq", cwd=WT)
     dst = f"/verif/seeded/{mid}"
     os.makedirs(dst, exist_ok=True)
-    for f in ("patch.diff", "demo_test.go", "notes.md"):
+    meta["base_commit"] = sh("git -C /repo rev-parse --short HEAD")[1].strip()
+    for f in ("patch.diff", "patch.rebased.diff", "demo_test.go", "notes.md"):
         if os.path.exists(f"{src}/{f}"):
             shutil.copy(f"{src}/{f}", f"{dst}/{f}")
     meta["what_it_needs"] = "see notes.md"
